@@ -206,9 +206,9 @@ Definition dec_fetch (tif : bool) (want_trg : bool) (h : hdr) (p : bytes) : fetc
 
 (* ---------- tcp_connector::hash ---------- *)
 Definition hash_step (h c : N) : N :=
-  let high := N.land h 4160749568 in                          (* highorder = h & 0xf8000000 *)
+  let high := N.land h 4160749568 mod W32 in                  (* highorder = h & 0xf8000000u *)
   let h1 := N.shiftl h 5 mod W32 in                           (* h<<=5 *)
-  let h2 := N.lxor h1 (N.shiftr high 27) mod W32 in           (* h^=highorder>>27 *)
+  let h2 := N.lxor h1 (N.shiftr high 27 mod W32) mod W32 in   (* h^=highorder>>27 *)
   N.lxor h2 (c mod 256) mod W32.                              (* h^=c *)
 Definition hash_raw (key : bytes) : N := fold_left hash_step key 0.
 Definition server_of (n : nat) (key : bytes) : nat :=
